@@ -612,9 +612,14 @@ func (c *twoPhaseCommitter) initKeysAndMutations(ctx context.Context) error {
 				}
 			} else {
 				if isUnnecessaryKV {
-					continue
-				}
-				if !txn.IsPessimistic() && flags.HasPresumeKeyNotExists() {
+					if !flags.HasLocked() {
+						continue
+					}
+					// Same as above: the key was locked before, prewrite the lock so that the
+					// pessimistic lock is removed although the deletion needn't be committed.
+					op = getLockTypeFromFlags(flags)
+					lockCnt++
+				} else if !txn.IsPessimistic() && flags.HasPresumeKeyNotExists() {
 					// delete-your-writes keys in optimistic txn need check not exists in prewrite-phase
 					// due to `Op_CheckNotExists` doesn't prewrite lock, so mark those keys should not be used in commit-phase.
 					op = kvrpcpb.Op_CheckNotExists
